@@ -9,11 +9,14 @@ import numpy as np
 import bct
 from bctmc import smallscope as ss
 from bctmc import oracles as orc
+from bctmc import named
 from bctmc.runner import guarded
 from bctmc.tally import Tally
 
 PROPERTY = 'C03'
-RULE = ('every labelled digraph / undirected graph of the stated families (binary n<=4 dir, n<=5 und; '
+RULE = ('a fixed family of ~100 structured graphs on 7-10 nodes (bctmc/named.py: paths, cycles, stars, wheels, cliques, '
+        'bipartite, ladders, trees, unions with isolated nodes, DAGs, tournaments; binary, lengths {1,2},{1,2,3}, near-tie) and '
+        'every labelled digraph / undirected graph of the stated families (binary n<=4 dir, n<=5 und; '
         'lengths {1,2,3} and the near-tie alphabet {1, 2, 2+2^-20} (1+1 is shorter than 2+2^-20 by less than any common tolerance) on 3-node digraphs and 4-node graphs; weights {1,1/2,1/4} for inv/log; thorough adds '
         'lengths {1,2} on all 4-node digraphs and 5-node graphs, binary n=6 und, n=5 dir with <=... see families '
         'counter); non-trivial = graph with an unreachable ordered pair and a pair at distance >= 2 hops, or '
@@ -42,8 +45,16 @@ FAMILIES = {
 }
 
 
+NAMED = {'named:bin_und': 'bin', 'named:bin_dir': 'bin', 'named:len_und': 'len', 'named:len_dir': 'len',
+         'named:neartie_und': 'len', 'named:neartie_dir': 'len'}
+
+
 def plan(ctx):
     units = []
+    for nm in NAMED:
+        tot = len(named.family(nm.split(':')[1]))
+        for (a, b) in ss.ranges(tot, 16):
+            units.append((nm, a, b))
     for name, (kind, directed, n, alpha, tier) in FAMILIES.items():
         if tier == 't' and not ctx.thorough:
             continue
@@ -54,6 +65,8 @@ def plan(ctx):
 
 
 def graph(name, idx):
+    if name in NAMED:
+        return named.family(name.split(':')[1])[idx][1]
     kind, directed, n, alpha, _ = FAMILIES[name]
     return ss.dir_graph(n, alpha, idx) if directed else ss.und_graph(n, alpha, idx)
 
@@ -178,7 +191,7 @@ def check_lengths(t, case, L, floyd_arg, transform, binary, wei_arg=None):
 
 
 def check_case(t, name, X, case):
-    kind = FAMILIES[name][0]
+    kind = NAMED[name] if name in NAMED else FAMILIES[name][0]
     n = len(X)
     if kind == 'bin':
         D, allowed = check_lengths(t, case, X, X, None, True, wei_arg=X)
@@ -201,6 +214,8 @@ def work(unit):
     for idx in range(a, b):
         X = graph(name, idx)
         case = {'family': name, 'index': idx, 'X': X}
+        if name in NAMED:
+            case['graph'] = named.family(name.split(':')[1])[idx][0]
         t.c['evaluations'] += 1
         t.c['fam_' + name] += 1
         if check_case(t, name, X, case):
